@@ -88,6 +88,15 @@ class Diagonalization(Function):
 
         # finally sum the two
         dL_dM = term1 + term2
-        output = tuple([None] * 6 + [dL_dM])
 
-        return output
+        # dL/dM is the gradient with respect to the (dense) matrix; the gradients of the tensors that represent the
+        # operator are  sum_ij dL/dM_ij  dM_ij/dtheta = _bilinear_derivative(dL/dM, I)
+        matrix_args = ctx.saved_tensors[:-2]
+        if hasattr(ctx, "_linear_op"):
+            linear_op = ctx._linear_op
+        else:
+            linear_op = ctx.representation_tree(*matrix_args)
+        eye = torch.eye(dL_dM.size(-1), dtype=dL_dM.dtype, device=dL_dM.device).expand_as(dL_dM)
+        arg_grads = linear_op._bilinear_derivative(dL_dM, eye)
+
+        return tuple([None] * 6 + list(arg_grads))
